@@ -34,6 +34,16 @@ ASSUMPTIONS = [
 def gen_case(rng: random.Random, tier: str) -> dict:
     feats = {**gen.gen_feats(rng), "loops": False}
     g = gen.gen_program(rng, feats=feats, max_nodes=9 if tier == "thorough" else 7)
+    if rng.random() < 0.06:
+        # one NAME that is the ordering signal of a node in one branch of a gate and the data output of a node in the other branch
+        # (legal: the producers are mutually exclusive); whether the name is returned depends on what was produced, not on the name
+        dec = rng.random() < 0.5
+        g = {"name": "top", "ext": ["x"], "lists": [], "seeds": [], "own_ext": ["x"], "picked": [], "order": [0, 1, 2, 3], "nodes": [
+            {"kind": "ifelse", "name": "xg", "params": [{"name": "x"}], "when_true": "xe", "when_false": "xd", "default_open": False, "decide": {"op": "const", "value": dec}},
+            {"kind": "fn", "name": "xe", "params": [{"name": "x"}], "outs": ["xe_o"], "emit": ["tok"]},
+            {"kind": "fn", "name": "xd", "params": [{"name": "x"}], "outs": ["tok"]},
+            {"kind": "fn", "name": "xf", "params": [{"name": "x"}], "outs": ["xf_o"], "wait_for": ["tok"]}]}
+        rng.shuffle(g["order"])
     for nd, _d, _p in iter_nodes(g):
         if nd["kind"] in ("route", "ifelse") and rng.random() < 0.5:
             nd["cache"] = True
@@ -347,10 +357,20 @@ def run_case(doc: dict) -> dict:
                 # (nor when a waiter has a defaulted parameter: in the unscoped run it may legitimately have run once on the
                 #  default and never again - C17 - whereas the scoped run is handed the upstream value by the caller)
                 sticky = any(nd.get("wait_for") and any("default" in q for q in nd.get("params", [])) for nd, _d, _p in iter_nodes(g))
-                if not has_gates and out["status"] == "completed" and not faults and not ordering_cut and not sticky:
+                inner_sel = any(nd["kind"] == "graph" and nd["graph"].get("select") for nd, _d, _p in iter_nodes(g))  # an inner select also narrows what a wrapper CONSUMES: the spec-level scope model over-approximates the scope then
+                if not has_gates and out["status"] == "completed" and not faults and not ordering_cut and not sticky and not (inner_sel and act is not None):
                     diff = {k: (v, ref["values"][k]) for k, v in vals.items() if k in ref["values"] and canon(v) != canon(ref["values"][k])}
                     if diff:
                         viol.append((f"{tag}:scoped_value_differs_from_unscoped_run", {"diff(scoped,unscoped)": diff, "entry": doc.get("entry")}))
+                    if act is not None and rd == 0 and cache is None and doc.get("rsel") is None and not doc.get("gsel") and not inner_sel:
+                        # liveness inside the scope: every top-level node of the scope that ran in the unscoped run runs in the scoped run
+                        hist = w["rt"].history
+                        mk = [i for i, h in enumerate(hist) if h["k"] == "derive_marker"]
+                        ran_scoped = {own.get(h["n"], h["n"]) for h in (hist[mk[-1]:] if mk else hist) if h["k"] == "enter"}
+                        ran_ref = {own.get(h["n"], h["n"]) for h in wref["rt"].history if h["k"] == "enter"}
+                        lost = sorted((ran_ref & set(act)) - ran_scoped)
+                        if lost:
+                            viol.append((f"{tag}:node_inside_entry_point_scope_never_ran", {"nodes": lost, "entry": doc["entry"], "active": sorted(act)}))
                 # on_missing = warn / ignore
                 warned = [m for c, m in out.get("warnings", []) if c == "UserWarning" and "Requested outputs not found" in m]
                 if out["status"] == "completed":
